@@ -471,6 +471,12 @@ struct XParse : Engine {
         if (ledger_live() != live0) V("safety", "leak", "allocation balance after deleting every returned tree is " + std::to_string(ledger_live() - live0) + " (expected 0)");
         if (L.errors != errs0) V("safety", "allocator-misuse", L.first_error);
     }
+    void finish(std::map<std::string, std::string>& x) override {
+        x["rule"] = jstr("one case = one input text, run through all ten entry-point variants on an exact-size buffer that ends at (and, mirrored, starts after) an inaccessible page, and compared with an independent strict RFC 8259 decoder (S) and a recogniser of the library's lenient dialect (L). "
+                         "Stages enumerate completely: all byte strings over a 33-byte alphabet up to the length bound, all token sequences over 16 tokens, all sequences of string pieces (escapes, surrogates, malformed escapes, raw bytes), 16 nesting families around the limit, all \\uXXXX escapes and surrogate pairs, number spellings, "
+                         "every number length 1..130 in 8 forms and every malformed tail of up to 4 number characters behind a long number, string literals of every length 0..300 and around 512 / 1024 / 4096 (complete and cut off), all single-edit corruptions of seed texts; "
+                         "plus: every allocation request of every entry point refused in turn (texts up to 3 tokens), the same memory parsed twice with different contents, and the enumerations repeated under user-supplied allocators");
+    }
     std::string describe(const Case& c) override {
         if (c.kind == K_NEST) { static const char* fn[] = { "'['^d", "'['^d ']'^d", "'{\"a\":'^d", "'{\"a\":'^d 1 '}'^d", "alternating [ {\"a\": ^d null closers", "'[1,'^d", "'[ '^d ' ]'^d", "'[' d x '[]' ']'", "'[' d x '{}' ']'", "'[' d x '[1]' ']'", "'{' d x '\"a\":{\"b\":2}' '}'", "'[' d x '[[],{}]' ']'", "'{' d x '\"k\":[]' '}'", "'[0,'^d 1 ']'^d", "'{\"a\":0,\"b\":'^d 1 '}'^d", "alternating later-position nesting ^d" }; return std::string("nesting family ") + fn[c.iv[1]] + " d=" + std::to_string(c.iv[2]); }
         return "\"" + printable(c.str().substr(0, 100)) + "\" (" + std::to_string(c.len) + " bytes)";
